@@ -507,7 +507,7 @@ def elf_requests(rng, info, virt, zero_excluded, limit=40):
     pages = sorted(pages)
     if len(pages) > limit:
         pages = sorted(rng.sample(pages, limit))
-    ok = lambda addr, n: all(elf_covered(loads, pgsz, virt, zero_excluded, p * pgsz)
+    ok = lambda addr, n: all(elf_covered(loads, pgsz, virt, True, p * pgsz)
                              for p in range(addr // pgsz, (addr + max(n, 1) - 1) // pgsz + 1))
     reqs = []
     for p in pages:
@@ -519,6 +519,46 @@ def elf_requests(rng, info, virt, zero_excluded, limit=40):
             if addr >= 0 and (not virt or ok(addr, n)):
                 reqs.append("R%s:%x:%x" % (a, addr, n))
     rng.shuffle(reqs)        # the last_load / last_vload shortcut sees every order
+    return elf_prime_requests(rng, info, virt) + reqs
+
+
+def elf_prime_requests(rng, info, virt):
+    """Read pairs that put the last-hit shortcut of find_closest_{mem,file}_{,v}load into each state
+    before the lookup that matters: for segments with memsz > filesz, (a page of the segment's
+    file-backed part, then a page of its memory-only tail), (a page of a neighbouring segment, then the
+    tail), (the tail, then the file-backed part).  Issued in both zero_excluded modes by the caller;
+    with zero-fill off the tail is not in the dump (physical: NODATA; virtual: the library asks
+    libaddrxlat), with zero-fill on it reads as zeroes."""
+    pgsz, loads = info["pgsz"], info["loads"]
+    a = "V" if virt else "M"
+    key = "virt" if virt else "phys"
+    def file_page(s):
+        base, n = s[key], len(s["data"])
+        if not n:
+            return None
+        q = -(-base // pgsz)
+        return q if (q + 1) * pgsz <= base + n else base // pgsz
+    def tail_page(s):
+        base = s[key]
+        p0 = -(-(base + len(s["data"])) // pgsz)
+        return p0 if (p0 + 1) * pgsz <= base + s["memsz"] else None
+    inside = lambda p: any(s[key] < (p + 1) * pgsz and p * pgsz < s[key] + s["memsz"] for s in loads)
+    tails = [s for s in loads if tail_page(s) is not None]
+    rng.shuffle(tails)
+    reqs = []
+    rd = lambda p: reqs.append("R%s:%x:%x" % (a, p * pgsz, pgsz))
+    for s in tails[:2 if pgsz <= 8192 else 1]:
+        t, f = tail_page(s), file_page(s)
+        others = [file_page(o) for o in loads if o is not s and file_page(o) is not None]
+        if f is not None:
+            rd(f); rd(t)                      # same segment: file-backed part, then the tail
+        if others:
+            rd(rng.choice(others)); rd(t)     # a neighbouring segment, then the tail
+        if f is not None:
+            rd(t); rd(f)                      # the tail, then the file-backed part
+        last = (s[key] + s["memsz"] - 1) // pgsz
+        if last != t and f is not None and inside(last):
+            rd(f); rd(last)                   # ... and the last page of the memory range
     return reqs
 
 
